@@ -57,10 +57,13 @@ def _limits(mem_gb):
     return f
 
 
-def _run(cmd, timeout, mem_gb, cwd=None, stdout=None):
+def _run(cmd, timeout, mem_gb, cwd=None, stdout=None, tmpdir=None):
     t0 = time.time()
     try:
-        p = subprocess.Popen(cmd, stdout=stdout or subprocess.PIPE, stderr=subprocess.PIPE, cwd=cwd, preexec_fn=_limits(mem_gb))
+        env = dict(os.environ)
+        if tmpdir:
+            env["TMPDIR"] = tmpdir  # cbmc writes the CNF for an external SAT solver there; removed with the job directory
+        p = subprocess.Popen(cmd, stdout=stdout or subprocess.PIPE, stderr=subprocess.PIPE, cwd=cwd, preexec_fn=_limits(mem_gb), env=env)
         try:
             out, err = p.communicate(timeout=timeout)
         except subprocess.TimeoutExpired:
@@ -160,7 +163,7 @@ def run_job(job, workdir, gen_dir):
             for n in g:
                 cmd += ["--property", n]
         with open(oj, "wb") as fo:
-            rc, _, err, t = _run(cmd, job.timeout, job.mem_gb, stdout=fo)
+            rc, _, err, t = _run(cmd, job.timeout, job.mem_gb, stdout=fo, tmpdir=workdir)
         return gi, rc, err, t, oj
 
     if len(groups) == 1:
